@@ -66,9 +66,9 @@ FieldsInRange(t) ==
                       ELSE TA(t) \in 0..8388607 /\ TB(t) \in 0..8388607
 \* [H] only categories 0..7 are defined for base tokens
 CategoryDefined(t) == IsBase(t) => Vbc(t) \in 0..7
-\* [T] "at 21 bits, the VBD can hold every valid Unicode code point, up to U+10FFFF"; a code point token names ONE
-\* Unicode scalar value (not a surrogate half: [J] the decoder combines 😀 into one token or fails)
-CodePointValid(t) == IsCat(t, VbcUnicodeCodePoint) => (Vbd(t) <= 1114111 /\ ~(Vbd(t) \in 55296..57343))
+\* [T] "at 21 bits, the VBD can hold every valid Unicode code point, up to U+10FFFF": the 21 bits of a code point
+\* token hold a code point, i.e. at most 0x10FFFF.  (Whether a lone surrogate may be named is not stated; not demanded.)
+CodePointValid(t) == IsCat(t, VbcUnicodeCodePoint) => Vbd(t) <= 1114111
 
 \* ---- rule 1: the tokens partition the source bytes ----------------------------------------
 \* [T] "The tokens partition the bytes. Each byte belongs to exactly one token. Each token spans zero or more
